@@ -20,7 +20,7 @@ RULE = ("one case = one interchange operation on one generated column in one of 
         "sizes) signature; non-trivial = the column holds a record")
 ASSUMPTIONS = ["Arrow's cast of flat values is the oracle for explicit type requests (plain pyarrow, no library code)"]
 CORRESPONDENCE = "m_list_struct_rows / m_init_from_ls (ExtArray.v: m_transpose_sl, m_transpose_ls) vs the real transpositions"
-LAYOUTS = [l for l in gen.LAYOUTS if l != "missing_hidden"] + ["history", "history"]
+LAYOUTS = list(gen.LAYOUTS) + ["history", "history"]
 
 
 class _R:
@@ -148,6 +148,10 @@ def generate(ctx):
                     nf["n"] = s
                     t = pa.Table.from_pandas(nf)
                     assert t["n"].to_pylist() == want and t["n"].type == st
+                    # ... and back: pandas finds the extension dtype by the NAME recorded in the table's metadata
+                    back = t.to_pandas()
+                    assert isinstance(back["n"].dtype, NestedDtype) and back["n"].dtype == s.dtype, f"table -> pandas: dtype {back['n'].dtype}"
+                    assert back["n"].array.chunked_array.to_pylist() == want, "table -> pandas: content differs"
                     assert pa.chunked_array(pa.array(s)).to_pylist() == want if not isinstance(pa.array(s), pa.ChunkedArray) \
                         else pa.array(s).to_pylist() == want
                 else:
@@ -159,8 +163,11 @@ def generate(ctx):
                     expect = attempt(lambda: flat.cast(target).to_pylist())
                     got = attempt(lambda: arr.__arrow_array__(new_st))
                     got2 = attempt(lambda: s.astype(NestedDtype(new_st)))
-                    if expect[0] == "ok" and inp["st"]["hidden_children"] is False:
-                        assert got[0] == "ok", "a castable type request was refused"
+                    # Arrow casts the whole value buffer of a list array, also the values outside the window of a slice or under a
+                    # missing row: the request may be refused because of a value no row shows ("honoured ... or refused")
+                    stored = attempt(lambda: [c.field(fld.name).values.cast(target) for c in arr.chunked_array.chunks])
+                    if expect[0] == "ok" and inp["st"]["hidden_children"] is False and (got[0] == "ok" or stored[0] == "ok"):
+                        assert got[0] == "ok", f"a castable type request was refused: {got[1]!r} (target {target}, field {fld.name})"
                         out = got[1]
                         assert out.type == new_st
                         outflat = [v for r in out.to_pylist() if r is not None for v in r[fld.name]]
